@@ -28,7 +28,7 @@ _ops("C13", "Deduplicate Compress")
 _ops("C14", "MaxCharStats Consensus CharStats CharStatsSite CharStatsSeq UniqueCharacters Entropy NbVariableSites "
             "InformativeSites AvgAllelesPerSite Pssm CountDifferences NumGapsUnique NumMutationsUnique NumMutRef "
             "ListMutRef CountProfile ProfileOnly")
-_ops("C15", "Mask MaskOccurences MaskUnique")
+_ops("C15", "Mask MaskPositions MaskOccurences MaskUnique")
 _ops("C10", "ShuffleSequences ShuffleSites Swap SimulateRogue BuildBootstrap Sample SampleSeqBag RandSubAlign Mutate "
             "AddGaps Recombine Rarefy")
 _ops("C19", "Query")
